@@ -146,8 +146,9 @@ def make_events(case, counter, args):
                 if a != args:
                     counter.bad_args += 1
                 return y[0] * y[1]
-        g.terminal = bool(e["terminal"])
-        g.direction = float(e["direction"])
+        if not e.get("plain"):
+            g.terminal = bool(e["terminal"])
+            g.direction = float(e["direction"])
         evs.append(g)
     return evs
 
